@@ -52,6 +52,9 @@ def main(argv):
         elif a == '--thorough':
             tier = 'thorough'
         elif a == '--replay':
+            if i + 1 >= len(argv):
+                print('usage: ./check <Cxx> --replay <replay file>')
+                return 2
             replay = argv[i + 1]
     seed = int(os.environ.get('VERIF_SEED', '0') or 0)
     mod = importlib.import_module(f'checks.{pid}')
